@@ -35,7 +35,7 @@ def run(chk):
     from sym import ptreplay
     L1m.settle(chk, [o for o in chk.obs if o.name.startswith("Point.SetBytes")], lambda: c04.decode_battery(chk.seed), "Point.SetBytes")
     L1m.settle(chk, [o for o in chk.obs if "SetExtendedCoordinates" in o.name], lambda: c13.setext_battery_with_witnesses(chk, base), "Point.SetExtendedCoordinates")
-    chk.extra.pop("setext_accept_polys", None)
+    chk.extra.pop("setext_accept_polys", None); chk.extra.pop("setext_reject_polys", None)
     chk.samples = [o.j() for o in chk.obs if "reject" in o.name or "(nil, error)" in o.name][:8]
 
 
